@@ -64,8 +64,9 @@ def gen_program(rng, tier):
         for b in range(rng.choice([1, 2, 2, 3])):
             ops = _restricted(rng, [_gen_op(rng, includes, helpers) for _ in range(rng.randint(1, 5))])
             blocks.append({"var": rng.choice(["ii", "jj", "tid", "ipart"]), "chain": b > 0 and rng.random() < 0.5, "ops": ops})
-        kernels.append({"name": f"kern{kk}", "blocks": blocks, "filler": rng.sample(range(1000), rng.randint(0, 4)), "scalar": rng.choice([None, "Float64", "Int64"]), "restrict": rng.random() < 0.5})
-    return {"built": built, "includes": includes, "helpers": helpers, "kernels": kernels, "omp": rng.choice([2, 2, "auto"]), "block_size": rng.choice([1, 2, 3, 4, 32, 256]), "nops": rng.choice([2, 4, 6, 10]) if tier == "quick" else rng.choice([6, 12, 20])}
+        lim = rng.choice(["n", "n", "n", "n-1", "n/2", "n-3"])
+        kernels.append({"name": f"kern{kk}", "limit": lim, "blocks": blocks, "filler": rng.sample(range(1000), rng.randint(0, 4)), "scalar": rng.choice([None, "Float64", "Int64"]), "restrict": rng.random() < 0.5})
+    return {"built": built, "includes": includes, "helpers": helpers, "kernels": kernels, "omp": rng.choice([2, 2, "auto"]), "block_size": rng.choice([1, 2, 3, 4, 32, 33, 48, 100, 200, 256]), "nops": rng.choice([2, 4, 6, 10]) if tier == "quick" else rng.choice([6, 12, 20])}
 
 
 def _gen_op(rng, includes, helpers=()):
@@ -114,6 +115,9 @@ def render(prog):
         nb = len(k["blocks"])
         rq = "/*restrict*/" if k["restrict"] else ""
         args = ["const int n"]
+        lim = k.get("limit", "n")
+        if lim != "n":
+            args.append("const int nlaunch")  # the number of work-items: the value of the limit expression
         if k["scalar"] == "Float64":
             args.append("const double sc")
         elif k["scalar"] == "Int64":
@@ -129,7 +133,7 @@ def render(prog):
             filler.append(L[-1])
         for b, blk in enumerate(k["blocks"]):
             v = blk["var"]
-            L.append(f"  for (int {v}=0; {v}<n; {v}++){{ //vectorize_over {v} n")
+            L.append(f"  for (int {v}=0; {v}<{lim}; {v}++){{ //vectorize_over {v} {lim}")
             src = f"out{b-1}[{v}]" if blk["chain"] else f"x[{v}]"
             L.append(f"    double t = {src};")
             if k["scalar"]:
@@ -283,13 +287,15 @@ class DevSim:
         out = {}
         for k in prog["kernels"]:
             args = [xo.Arg(xo.Int32, name="n")]
+            if k.get("limit", "n") != "n":
+                args.append(xo.Arg(xo.Int32, name="nlaunch"))
             if k["scalar"]:
                 args.append(xo.Arg(getattr(xo, k["scalar"]), name="sc"))
             args.append(xo.Arg(xo.Float64, pointer=True, const=True, name="x"))
             for b in range(len(k["blocks"])):
                 args.append(xo.Arg(xo.Float64, pointer=True, name=f"out{b}"))
                 args.append(xo.Arg(xo.Int32, pointer=True, name=f"hits{b}"))
-            out[k["name"]] = xo.Kernel(args=args, n_threads="n")
+            out[k["name"]] = xo.Kernel(args=args, n_threads="n" if k.get("limit", "n") == "n" else "nlaunch")
         return out
 
     def build_all(self, prog, src, filler, res):
@@ -368,7 +374,12 @@ class DevSim:
 
         t = op["target"]
         k = prog["kernels"][op["kernel"]]
-        n = op["n"]
+        nargs = op["n"]
+        lim = k.get("limit", "n")
+        n = {"n": nargs, "n-1": nargs - 1, "n/2": nargs // 2, "n-3": nargs - 3}[lim]
+        if n < 0:
+            nargs = {"n-1": 1, "n-3": 3}[lim] + nargs
+            n = {"n-1": nargs - 1, "n-3": nargs - 3}[lim]
         A = self.arrays[(t, k["name"])]
         cnt = self.calls[(t, k["name"])]
         r = np.random.RandomState(op["xseed"])
@@ -377,7 +388,10 @@ class DevSim:
         device.SCHED.kind, device.SCHED.seed = op["order"]
         device.SCHED.launches = []
         res.fault("launch_order_" + op["order"][0])
-        kw = {"n": n, "x": A.arg("x")}
+        kw = {"n": nargs, "x": A.arg("x")}
+        if lim != "n":
+            kw["nlaunch"] = n
+            res.probe("limit_is_an_expression")
         if k["scalar"]:
             kw["sc"] = op["sc"]
         for b in range(len(k["blocks"])):
